@@ -54,7 +54,7 @@ func init() {
 	)
 
 	register("C01",
-		"Structural necessary conditions of 'WKB/EWKB is lossless': coordinates are only moved and bit-cast on the codec path (no float computation, so every float64 bit pattern survives); every member loop of the writer covers all members. Value-level round-trip equality is NOT decided.",
+		"WKB/EWKB round trip, decided for the enumerated shapes with every coordinate and the SRID unknown: the encoder's output is followed byte by byte (constants, or eight bits of one coordinate) and handed to the byte-slice decoder, the stream decoder and the SQL scanner (every destination type) in the same abstract state; the decoded value has the kind, nesting, lengths and the very coordinates of the original (ring/bound as one-ring polygon), the SRID comes back, the three paths agree, the scanner applies exactly the documented coercions and fails with the wrong-geometry error otherwise. Plus the structural rules: coordinates only moved and bit-cast (H1), tables (T1-T3), member loops (D2), scanner state (G2). The scanner's input framings (hex text, backslash-x hex text, 4-byte SRID prefix) are covered with abstract hex digits. NOT decided: shapes beyond the enumerated ones; nil members inside multi geometries (outside the stated domain: the encoder skips them while counting them).",
 		ruleFloatPure(inWKB, nil, 70),
 		ruleMemberLoops(inWKB, 10, 0),
 		ruleWKBTables,
@@ -62,6 +62,7 @@ func init() {
 		ruleMemberSizes,
 		ruleScannerState,
 		ruleNoGlobalResult("wkb encoders", marshalEntries("encoding/wkb.Marshal", "encoding/ewkb.Marshal", "encoding/internal/wkbcommon.Marshal"), 3),
+		ruleCompose(wkbRoundTripSpecs, 400),
 	)
 
 	register("C02",
